@@ -115,7 +115,8 @@ inductive Op
   | connect (h : Nat) (target : Option Nat)
   | accept (s c : Nat) | close (h : Nat) | run
   | uvPipe | uvSocketpair
-  | fsOpen (variant : String) | fsMkstemp | fsClose (f : Nat) | fsCopyfile (ok : Bool)
+  | fsOpen (variant : String) | fsMkstemp | fsClose (f : Nat) | fsCopyfile (variant : String)
+  | flood (h n : Nat) | util
   | ipcSend (f h : Nat) (kinds : List HKind)
   | spawn (ok : Bool) (cs : List Cont)
   | end_
@@ -510,17 +511,30 @@ def opFsClose (s : St) (f : Nat) : St :=
   | some e => if e.stdio then bad s else ret (s.run [.closeUser f]) true
   | none => bad s
 
-/-- uv__fs_copyfile (fs.c:1230-1425): both descriptors are closed on every exit -/
-def opFsCopyfile (s : St) (inj : Inj) (ok : Bool) : St :=
+/-- uv__fs_copyfile (fs.c:1230-1425): both descriptors are closed on every exit.  Variants: `ok` fresh destination,
+    `missing` no source, `same` / `link` destination is the source itself (early exit, nothing copied), `exists`
+    destination is truncated, `excl` destination exists with UV_FS_COPYFILE_EXCL (open fails), `ficlone`. -/
+def opFsCopyfile (s : St) (inj : Inj) (v : String) : St :=
+  if !(v = "ok" || v = "missing" || v = "same" || v = "link" || v = "exists" || v = "excl" || v = "ficlone") then bad s else
   match s.fails inj "open" with
   | some _ => ret (s.tick inj "open") false
   | none =>
     let s := s.tick inj "open"
-    if !ok then ret s false else
+    if v = "missing" then ret s false else
     let s := s.run [.create .fsOpen .file (.temp 0)]
     match s.fails inj "open" with
     | some _ => ret ((s.tick inj "open").run [.closeOwner (.temp 0) false]) false
-    | none => ret ((s.tick inj "open").run [.create .fsOpen .file (.temp 1), .closeOwner (.temp 0) false, .closeOwner (.temp 1) false]) true
+    | none =>
+      if v = "excl" then ret ((s.tick inj "open").run [.closeOwner (.temp 0) false]) false else
+      ret ((s.tick inj "open").run [.create .fsOpen .file (.temp 1), .closeOwner (.temp 0) false, .closeOwner (.temp 1) false]) true
+
+/-- `n` clients connect to listening server `h` and go away: the connections wait in the backlog -/
+def opFlood (s : St) (h n : Nat) : St :=
+  match s.liveH h with
+  | none => bad s
+  | some hh =>
+    if !(hh.kind = .tcp || hh.kind = .pipe) then bad s else
+    if hh.listening then ret (s.setH h (fun x => { x with pending := x.pending + n })) true else ret s false
 
 def opIpcSend (s : St) (f h : Nat) (kinds : List HKind) : St :=
   match userEntry s f with
@@ -574,7 +588,9 @@ def step (s : St) (inj : Inj) (op : Op) : St :=
     | .fsOpen variant => opFsOpen s inj variant
     | .fsMkstemp => (s.run [.createGive .mkostemp .file]).say s!"ret f{s.l.1.next}"
     | .fsClose f => opFsClose s f
-    | .fsCopyfile ok => opFsCopyfile s inj ok
+    | .fsCopyfile v => opFsCopyfile s inj v
+    | .flood h n => opFlood s h n
+    | .util => ret s true
     | .ipcSend f h kinds => opIpcSend s f h kinds
     | .spawn ok cs => opSpawn s inj ok cs
     | _ => bad s
